@@ -46,6 +46,33 @@ class _Worker:
         self.proc = None
 
 
+_IDLE: list[_Worker] = []
+_IDLE_LOCK = threading.Lock()
+
+
+def _shutdown_idle() -> None:
+    with _IDLE_LOCK:
+        ws = list(_IDLE)
+        _IDLE.clear()
+    for w in ws:
+        try:
+            assert w.proc and w.proc.stdin
+            w.proc.stdin.close()
+        except Exception:
+            pass
+    for w in ws:
+        try:
+            assert w.proc
+            w.proc.wait(timeout=3)
+        except Exception:
+            w.kill()
+
+
+import atexit  # noqa: E402
+
+atexit.register(_shutdown_idle)
+
+
 def run_tasks(
     tasks: Iterable[dict[str, Any]],
     *,
@@ -75,7 +102,16 @@ def run_tasks(
             except queue.Empty:
                 break
             if w is None or w.proc is None or w.proc.poll() is not None:
-                w = _Worker(e)
+                w = None
+                if not env and not fresh_each:
+                    with _IDLE_LOCK:
+                        while _IDLE:
+                            cand = _IDLE.pop()
+                            if cand.proc is not None and cand.proc.poll() is None:
+                                w = cand
+                                break
+                if w is None:
+                    w = _Worker(e)
             res: dict[str, Any]
             try:
                 assert w.proc and w.proc.stdin and w.proc.stdout
@@ -120,12 +156,16 @@ def run_tasks(
                 except Exception:
                     pass
         if w:
-            try:
-                assert w.proc and w.proc.stdin
-                w.proc.stdin.close()
-                w.proc.wait(timeout=5)
-            except Exception:
-                w.kill()
+            if not env and not fresh_each and w.proc is not None and w.proc.poll() is None:
+                with _IDLE_LOCK:
+                    _IDLE.append(w)
+            else:
+                try:
+                    assert w.proc and w.proc.stdin
+                    w.proc.stdin.close()
+                    w.proc.wait(timeout=5)
+                except Exception:
+                    w.kill()
 
     threads = [threading.Thread(target=loop, daemon=True) for _ in range(nworkers)]
     for th in threads:
